@@ -28,7 +28,7 @@ SPEC = {
     "build_comp": "certtamper",
     "props": ["props/C02.v"],
     "corr": ["corr/CertTamper_corr.v"],
-    "comps": [{"comp": "certtamper", "n_quick": 2000, "n_thorough": 40000}],
+    "comps": [{"comp": "certtamper", "n_quick": 1600, "n_thorough": 40000}],
     "trusted": ["model/CertTamper.v parse_sig / swap_s / encode_sig / twin mirror cert/p256/p256.go (tied by correspondence on p256.Swap); check_signature / fp2 / "
                 "blocklist_pass mirror CheckSignature, CalculateAlternateFingerprint and the blocklist tests of ca_pool.go",
                 "model/CertCodec.v tbs_v1 / tbs_v2 are the bytes marshalForSigning hands to the signer (compared byte for byte in the C03 correspondence)",
